@@ -40,7 +40,7 @@ for d in sys.argv[1:]:
         "breaks_property": prop,
         "summary": summary,
         "history": history,
-        "origin": "independent sub-agent given only the property text and a scratch worktree (nothing from /verif)" + ({"2": " - second round, told which sites the first round had used", "4": " - third round, told which sites rounds 1-2 had used and pointed at the glue code", "6": " - fourth round, pointed at scale, configuration, long histories and restart cycles", "8": " - fifth round, told which regions rounds 1-4 had used and asked for two cooperating sites, error/retry/recovery paths, interleavings and unusual inputs", "10": " - sixth round (session 4): fresh seeders, only the property record and general guidance (sites a reviewer would not look at first: callers, helpers, configuration, error/retry/recovery paths, thresholds, long-lived state)", "14": " - eighth round (session 4): told which sites rounds 6-7 had used and asked for two cooperating sites, ordering assumptions, numeric and boundary semantics, life-cycle, well-meant fixes wrong for a rarer legal case", "12": " - seventh round (session 4): told which sites round 6 had used for the property and asked for scale thresholds, abstraction-keyed comparisons/caches, state surviving or lost across resets/restarts, error paths returning partial success, rare commands/options, ambient process state"}.get(os.environ.get("SEED_ID_OFFSET", ""), "")),
+        "origin": "independent sub-agent given only the property text and a scratch worktree (nothing from /verif)" + ({"2": " - second round, told which sites the first round had used", "4": " - third round, told which sites rounds 1-2 had used and pointed at the glue code", "6": " - fourth round, pointed at scale, configuration, long histories and restart cycles", "8": " - fifth round, told which regions rounds 1-4 had used and asked for two cooperating sites, error/retry/recovery paths, interleavings and unusual inputs", "10": " - sixth round (session 4): fresh seeders, only the property record and general guidance (sites a reviewer would not look at first: callers, helpers, configuration, error/retry/recovery paths, thresholds, long-lived state)", "16": " - ninth round (session 4, ten properties, 25-minute limit, one or two changes each): told the sites of rounds 6-8 and asked to stay inside the way the shipped binaries and the public API are really used", "14": " - eighth round (session 4): told which sites rounds 6-7 had used and asked for two cooperating sites, ordering assumptions, numeric and boundary semantics, life-cycle, well-meant fixes wrong for a rarer legal case", "12": " - seventh round (session 4): told which sites round 6 had used for the property and asked for scale thresholds, abstraction-keyed comparisons/caches, state surviving or lost across resets/restarts, error paths returning partial success, rare commands/options, ambient process state"}.get(os.environ.get("SEED_ID_OFFSET", ""), "")),
         "needs_to_manifest": needs or "see README.md",
         "confirmed_by_me": {
             "how": "tools/seed_verify.sh in scratch worktree /tmp/seed-verify-wt: demo.rs as tests/seed_demo_*.rs without the patch (must pass), with the patch (must fail), then the full existing suite with the patch (cargo nextest, must be 691 passed)",
